@@ -236,6 +236,181 @@ fn imports_case(order: &[usize], repeats: usize) -> Option<String> {
     None
 }
 
+// ---------------------------------------------------------------- C05: type expressions translate structurally (independent oracle)
+/// a Rust type expression as written in source
+#[derive(Clone, Debug)]
+enum TE { Prim(&'static str), User(&'static str), Param, Vec(Box<TE>), Arr(Box<TE>, usize), Slice(Box<TE>), Opt(Box<TE>), Map(Box<TE>, Box<TE>),
+          Smart(&'static str, Box<TE>), Ref(Box<TE>), Gen(&'static str, Vec<TE>), Qual(&'static str, Box<TE>) }
+const TE_PRIMS: [&str; 15] = ["bool", "char", "String", "&str", "i8", "i16", "i32", "u8", "u16", "u32", "I54", "U53", "f32", "f64", "()"];
+const TE_SMART: [&str; 8] = ["Box", "Arc", "Rc", "Cow", "Cell", "RefCell", "Mutex", "RwLock"];
+impl TE {
+    /// the source spelling
+    fn src(&self) -> String {
+        match self {
+            TE::Prim(p) => p.to_string(), TE::User(u) => u.to_string(), TE::Param => "T".into(),
+            TE::Vec(t) => format!("Vec<{}>", t.src()), TE::Arr(t, n) => format!("[{}; {}]", t.src(), n), TE::Slice(t) => format!("&'static [{}]", t.src()),
+            TE::Opt(t) => format!("Option<{}>", t.src()), TE::Map(k, v) => format!("HashMap<{}, {}>", k.src(), v.src()),
+            TE::Smart("Cow", t) => format!("Cow<'static, {}>", t.src()), TE::Smart(s, t) => format!("{}<{}>", s, t.src()),
+            TE::Ref(t) => format!("&'static {}", t.src()),
+            TE::Gen(g, a) => format!("{}<{}>", g, a.iter().map(|x| x.src()).collect::<Vec<_>>().join(", ")),
+            TE::Qual(q, t) => format!("{}::{}", q, t.src()),
+        }
+    }
+    /// the IR the property prescribes: references, smart pointers and path qualification disappear, everything else is kept
+    fn ir(&self) -> typeshare_core::rust_types::RustType {
+        use typeshare_core::rust_types::{RustType as R, SpecialRustType as S};
+        match self {
+            TE::Prim(p) => R::Special(match *p { "bool" => S::Bool, "char" => S::Char, "String" | "&str" => S::String, "i8" => S::I8, "i16" => S::I16, "i32" => S::I32,
+                "u8" => S::U8, "u16" => S::U16, "u32" => S::U32, "I54" => S::I54, "U53" => S::U53, "f32" => S::F32, "f64" => S::F64, _ => S::Unit }),
+            TE::User(u) => R::Simple { id: u.to_string() }, TE::Param => R::Simple { id: "T".into() },
+            TE::Vec(t) => R::Special(S::Vec(Box::new(t.ir()))), TE::Arr(t, n) => R::Special(S::Array(Box::new(t.ir()), *n)), TE::Slice(t) => R::Special(S::Slice(Box::new(t.ir()))),
+            TE::Opt(t) => R::Special(S::Option(Box::new(t.ir()))), TE::Map(k, v) => R::Special(S::HashMap(Box::new(k.ir()), Box::new(v.ir()))),
+            TE::Smart(_, t) | TE::Ref(t) | TE::Qual(_, t) => t.ir(),
+            TE::Gen(g, a) => R::Generic { id: g.to_string(), parameters: a.iter().map(|x| x.ir()).collect() },
+        }
+    }
+}
+/// target types of the same JSON category that can hold every value (the property's rule; independent of the back ends' tables)
+fn prim_allowed(lang: &str, p: &str) -> Vec<&'static str> {
+    let sint = |bits: u32| -> Vec<&'static str> { match lang {
+        "typescript" => vec!["number"], "python" => vec!["int"],
+        "kotlin" | "scala" => [(8, "Byte"), (16, "Short"), (32, "Int"), (64, "Long")].iter().filter(|(b, _)| *b >= bits).map(|(_, n)| *n).collect(),
+        "swift" => [(8, "Int8"), (16, "Int16"), (32, "Int32"), (32, "Int"), (64, "Int64")].iter().filter(|(b, _)| *b >= bits).map(|(_, n)| *n).collect(),
+        _ => [(8, "int8"), (16, "int16"), (32, "int32"), (32, "int"), (64, "int64")].iter().filter(|(b, _)| *b >= bits).map(|(_, n)| *n).collect() } };
+    let uint = |bits: u32| -> Vec<&'static str> { let mut v = sint(bits + 1); v.extend(match lang {
+        "typescript" | "python" => vec![],
+        "kotlin" | "scala" => [(8, "UByte"), (16, "UShort"), (32, "UInt"), (64, "ULong")].iter().filter(|(b, _)| *b >= bits).map(|(_, n)| *n).collect::<Vec<_>>(),
+        "swift" => [(8, "UInt8"), (16, "UInt16"), (32, "UInt32"), (32, "UInt"), (64, "UInt64")].iter().filter(|(b, _)| *b >= bits).map(|(_, n)| *n).collect(),
+        _ => [(8, "uint8"), (8, "byte"), (16, "uint16"), (32, "uint32"), (32, "uint"), (64, "uint64")].iter().filter(|(b, _)| *b >= bits).map(|(_, n)| *n).collect() }); v };
+    let string = match lang { "typescript" | "go" => "string", "python" => "str", _ => "String" };
+    match p {
+        "bool" => vec![match lang { "typescript" => "boolean", "kotlin" | "scala" => "Boolean", "swift" => "Bool", _ => "bool" }],
+        "String" | "&str" => vec![string],
+        "char" => { let mut v = vec![string]; if lang == "swift" { v.extend(["Unicode.Scalar", "Character"]); } if lang == "go" { v.extend(["rune", "int32"]); } v }
+        "i8" => sint(8), "i16" => sint(16), "i32" => sint(32), "I54" => sint(54), "u8" => uint(8), "u16" => uint(16), "u32" => uint(32), "U53" => uint(53),
+        "f32" => match lang { "typescript" => vec!["number"], "python" => vec!["float"], "go" => vec!["float32", "float64"], _ => vec!["Float", "Double"] },
+        "f64" => match lang { "typescript" => vec!["number"], "python" => vec!["float"], "go" => vec!["float64"], _ => vec!["Double"] },
+        _ => match lang { "typescript" => vec!["undefined", "null", "void"], "kotlin" | "scala" => vec!["Unit"], "swift" => vec!["CodableVoid"], "go" => vec!["struct{}"], _ => vec!["None"] },
+    }
+}
+const TYPE_LANGS: [&str; 6] = ["typescript", "kotlin", "swift", "scala", "go", "python"];
+/// configuration: 0 plain, 1 prefix (Kotlin / Swift), 2 type_mappings for a user type, a generic type and two built-in types
+fn type_lang(lang: &str, cfg: usize) -> Box<dyn typeshare_core::language::Language> {
+    use typeshare_core::language::{Go, Kotlin, Python, Scala, Swift, TypeScript};
+    let maps: std::collections::HashMap<String, String> = if cfg == 2 { [("Other", "MappedOther"), ("Wrap", "MappedWrap"), ("u32", "MappedU32"), ("String", "MappedString")].iter().map(|(a, b)| (a.to_string(), b.to_string())).collect() } else { Default::default() };
+    let prefix = if cfg == 1 { "Pre".to_string() } else { String::new() };
+    match lang {
+        "typescript" => Box::new(TypeScript { type_mappings: maps, ..Default::default() }),
+        "kotlin" => Box::new(Kotlin { type_mappings: maps, prefix, ..Default::default() }),
+        "swift" => Box::new(Swift { type_mappings: maps, prefix, ..Default::default() }),
+        "scala" => Box::new(Scala { type_mappings: maps, ..Default::default() }),
+        "go" => Box::new(Go { type_mappings: maps, ..Default::default() }),
+        _ => Box::new(Python { type_mappings: maps, ..Default::default() }),
+    }
+}
+/// what the property says the translation of `te` is, given the back end's own spelling of each primitive (checked separately against
+/// prim_allowed); Err = the target has no such type and a refusal is admitted (generic parameter as TypeScript / Python map key)
+fn type_expect(lang: &str, cfg: usize, te: &TE, prim: &dyn Fn(&str) -> String) -> Result<String, ()> {
+    let mapped = |n: &str| -> Option<String> { if cfg == 2 { match n { "Other" => Some("MappedOther".into()), "Wrap" => Some("MappedWrap".into()), "u32" => Some("MappedU32".into()), "String" | "&str" => Some("MappedString".into()), _ => None } } else { None } };
+    let pre = |n: &str| -> String { if cfg == 1 && (lang == "kotlin" || lang == "swift") { format!("Pre{}", n) } else { n.to_string() } };
+    let seq = |x: String| -> String { match lang { "typescript" => format!("{}[]", x), "kotlin" => format!("List<{}>", x), "swift" => format!("[{}]", x), "scala" => format!("Vector[{}]", x), "go" => format!("[]{}", x), _ => format!("List[{}]", x) } };
+    Ok(match te {
+        TE::Prim(p) => mapped(p).unwrap_or_else(|| prim(p)),
+        TE::User(u) => mapped(u).unwrap_or_else(|| pre(u)),
+        TE::Param => "T".into(),
+        TE::Vec(t) | TE::Slice(t) => seq(type_expect(lang, cfg, t, prim)?),
+        TE::Arr(t, n) => { let x = type_expect(lang, cfg, t, prim)?; match lang { "typescript" => format!("[{}]", vec![x; *n].join(", ")), "go" => format!("[{}]{}", n, x), _ => seq(x) } }
+        TE::Opt(t) => { let x = type_expect(lang, cfg, t, prim)?; match lang { "typescript" => x, "kotlin" | "swift" => format!("{}?", x), "scala" => format!("Option[{}]", x), "go" => format!("*{}", x), _ => format!("Optional[{}]", x) } }
+        TE::Map(k, v) => {
+            if (lang == "typescript" || lang == "python") && matches!(strip(k), TE::Param) { return Err(()); }
+            let (x, y) = (type_expect(lang, cfg, k, prim)?, type_expect(lang, cfg, v, prim)?);
+            match lang { "typescript" => format!("Record<{}, {}>", x, y), "kotlin" => format!("HashMap<{}, {}>", x, y), "swift" => format!("[{}: {}]", x, y), "scala" => format!("Map[{}, {}]", x, y), "go" => format!("map[{}]{}", x, y), _ => format!("Dict[{}, {}]", x, y) }
+        }
+        TE::Smart(_, t) | TE::Ref(t) | TE::Qual(_, t) => type_expect(lang, cfg, t, prim)?,
+        TE::Gen(g, a) => match mapped(g) { Some(m) => m, None => {
+            let args: Result<Vec<String>, ()> = a.iter().map(|x| type_expect(lang, cfg, x, prim)).collect();
+            let (o, c) = if matches!(lang, "typescript" | "kotlin" | "swift") { ("<", ">") } else { ("[", "]") };
+            format!("{}{}{}{}", pre(g), o, args?.join(", "), c) } },
+    })
+}
+fn strip(t: &TE) -> &TE { match t { TE::Smart(_, x) | TE::Ref(x) | TE::Qual(_, x) => strip(x), o => o } }
+fn type_leaves() -> Vec<TE> { let mut v: Vec<TE> = TE_PRIMS.iter().map(|p| TE::Prim(p)).collect(); v.push(TE::User("Other")); v.push(TE::Param); v }
+fn type_unary(t: &TE) -> Vec<TE> {
+    let b = || Box::new(t.clone());
+    let mut v = vec![TE::Vec(b()), TE::Arr(b(), 3), TE::Slice(b()), TE::Opt(b()), TE::Ref(b()), TE::Gen("Wrap", vec![t.clone()])];
+    for s in TE_SMART { v.push(TE::Smart(s, b())); }
+    v
+}
+/// the corpus: depth <= 2 exhaustively, depth 3 for every unary-of-unary, maps and two-argument generics over the leaves, path
+/// qualification, depth 4-5 chains; `thorough` adds every binary combination at depth 3
+fn type_corpus(thorough: bool) -> Vec<TE> {
+    let l0 = type_leaves();
+    let mut all: Vec<TE> = l0.clone();
+    let mut l1: Vec<TE> = vec![];
+    for t in &l0 { l1.extend(type_unary(t)); }
+    for k in &l0 { for v in &l0 { l1.push(TE::Map(Box::new(k.clone()), Box::new(v.clone()))); } }
+    for a in l0.iter().step_by(3) { for b in l0.iter().step_by(4) { l1.push(TE::Gen("Pair", vec![a.clone(), b.clone()])); } }
+    all.extend(l1.clone());
+    let mut l2: Vec<TE> = vec![];
+    for t in &l1 { if thorough || !matches!(t, TE::Map(_, _)) { l2.extend(type_unary(t)); } }
+    for (i, t) in l1.iter().enumerate() { if thorough || i % 7 == 0 { l2.push(TE::Map(Box::new(TE::Prim("String")), Box::new(t.clone()))); l2.push(TE::Map(Box::new(t.clone()), Box::new(TE::Prim("u32")))); l2.push(TE::Gen("Pair", vec![t.clone(), TE::Param])); } }
+    all.extend(l2.clone());
+    // path qualification and deep chains
+    all.push(TE::Qual("std::vec", Box::new(TE::Vec(Box::new(TE::Prim("u8"))))));
+    all.push(TE::Qual("std::collections", Box::new(TE::Map(Box::new(TE::Prim("String")), Box::new(TE::Qual("crate::model", Box::new(TE::User("Other"))))))));
+    all.push(TE::Qual("other_crate", Box::new(TE::Gen("Wrap", vec![TE::Qual("std::string", Box::new(TE::Prim("String")))]))));
+    for (i, t) in l2.iter().enumerate() { if i % (if thorough { 5 } else { 37 }) == 0 { let d3 = TE::Vec(Box::new(TE::Opt(Box::new(t.clone())))); all.push(TE::Map(Box::new(TE::Prim("String")), Box::new(TE::Smart("Arc", Box::new(d3.clone()))))); all.push(d3); } }
+    all
+}
+/// parse `te` in four positions and return the IR found at each (field, tuple-variant payload, struct-variant field, alias target)
+fn type_parse_batch(batch: &[TE]) -> Result<Vec<Vec<typeshare_core::rust_types::RustType>>, String> {
+    use typeshare_core::rust_types::{RustEnum, RustEnumVariant};
+    let mut src = String::from("#[typeshare]\npub struct S<T> {\n");
+    for (i, t) in batch.iter().enumerate() { src += &format!("    pub f{}: {},\n", i, t.src()); }
+    src += "}\n#[typeshare]\n#[serde(tag = \"t\", content = \"c\")]\npub enum E<T> {\n";
+    for (i, t) in batch.iter().enumerate() { src += &format!("    V{}({}),\n    W{} {{ x: {} }},\n", i, t.src(), i, t.src()); }
+    src += "}\n";
+    for (i, t) in batch.iter().enumerate() { src += &format!("#[typeshare]\npub type A{}<T> = {};\n", i, t.src()); }
+    let d = match panic::catch_unwind(|| parse(&ParseContext::default(), ParseFileContext { source_code: src.clone(), crate_name: CrateName::from("c".to_string()), file_name: "f.rs".into(), file_path: "f.rs".into() })) {
+        Err(_) => return Err("the parser panicked".into()), Ok(Err(e)) => return Err(format!("parse error: {}", e)), Ok(Ok(None)) => return Err("no data".into()), Ok(Ok(Some(d))) => d };
+    if !d.errors.is_empty() { return Err(format!("the parser reported {} error(s), first: {:?}", d.errors.len(), d.errors.first().map(|e| e.error.to_string()))); }
+    let mut out = vec![vec![]; batch.len()];
+    let s = d.structs.iter().find(|s| s.id.original == "S").ok_or("struct S missing")?;
+    for (i, f) in s.fields.iter().enumerate() { if i < batch.len() { out[i].push(f.ty.clone()); } }
+    let e = d.enums.iter().find(|e| e.shared().id.original == "E").ok_or("enum E missing")?;
+    if let RustEnum::Algebraic { shared, .. } = e { for (j, v) in shared.variants.iter().enumerate() { match v {
+        RustEnumVariant::Tuple { ty, .. } => out[j / 2].push(ty.clone()),
+        RustEnumVariant::AnonymousStruct { fields, .. } => out[j / 2].push(fields[0].ty.clone()), _ => {} } } }
+    for (i, _) in batch.iter().enumerate() { let a = d.aliases.iter().find(|a| a.id.original == format!("A{}", i)).ok_or("alias missing")?; out[i].push(a.r#type.clone()); }
+    Ok(out)
+}
+/// -> Some(description) when the parser's IR or a back end's spelling of `te` is not what the property prescribes
+fn type_case(te: &TE, irs: &[typeshare_core::rust_types::RustType]) -> Option<String> {
+    let want = te.ir();
+    if irs.len() != 4 { return Some(format!("`{}`: parsed at {} of 4 positions", te.src(), irs.len())); }
+    for (pos, got) in irs.iter().enumerate() { if *got != want { return Some(format!("`{}` (position {}: {}) is read as {:?}, the property prescribes {:?} (references / smart pointers / paths disappear, everything else is kept)", te.src(), pos, ["field", "variant payload", "struct-variant field", "alias target"][pos], got, want)); } }
+    for lang in TYPE_LANGS { for cfg in 0..3 {
+        if cfg == 1 && !(lang == "kotlin" || lang == "swift") { continue; }
+        // the back end's own spelling of each primitive, checked against the allowed set
+        let mut bad: Option<String> = None;
+        let prim = |p: &str| -> String {
+            let mut l = type_lang(lang, 0);
+            l.format_type(&TE::Prim(TE_PRIMS.iter().find(|x| **x == p).unwrap()).ir(), &["T".to_string()]).unwrap_or_else(|e| format!("<error {}>", e)) };
+        for p in TE_PRIMS { let got = prim(p); if !prim_allowed(lang, p).contains(&got.as_str()) { bad = Some(format!("{}: `{}` is translated to `{}`, which is not a type of the same JSON category that holds every value (allowed: {:?})", lang, p, got, prim_allowed(lang, p))); } }
+        if let Some(b) = bad { return Some(b); }
+        let want_s = type_expect(lang, cfg, te, &prim);
+        let mut l = type_lang(lang, cfg);
+        let w2 = want.clone();
+        let got = match panic::catch_unwind(panic::AssertUnwindSafe(|| l.format_type(&w2, &["T".to_string()]))) { Ok(r) => r, Err(_) => return Some(format!("{}: translating `{}` panicked", lang, te.src())) };
+        match (got, want_s) {
+            (Ok(g), Ok(w)) => if g != w { return Some(format!("{} (configuration {}): `{}` is translated to `{}`, the property prescribes `{}`", lang, cfg, te.src(), g, w)); },
+            (Err(e), Ok(w)) => return Some(format!("{} (configuration {}): `{}` is refused ({}), the property prescribes `{}`", lang, cfg, te.src(), e, w)),
+            (_, Err(())) => {}
+        }
+    } }
+    None
+}
+
 // ---------------------------------------------------------------- C13: cfg expressions vs the documented rule
 #[derive(Clone, Debug)]
 enum Cfg { Os(char), Feat, Word, Any(Vec<Cfg>), All(Vec<Cfg>), Not(Box<Cfg>) }
@@ -667,6 +842,28 @@ fn main() {
                     if let Some(m) = tos_case(cfgs, ts, p) { report(i, t, p, m); } }
             } }
             println!("no failing input among {} (cfg attribute set, target list, placement) triples: {} attribute sets up to depth 3", tried, all.len());
+            std::process::exit(0);
+        }
+        Some("type-search") | Some("type-check") => {
+            let thorough = std::env::var("VERIF_TIER").map_or(false, |t| t == "thorough");
+            let report = |i: usize, th: bool, m: String| { println!("WITNESS {{\"input\": {{\"index\": {}, \"thorough_corpus\": {}}}, \"fails\": {:?}}}", i, th, m); std::process::exit(1); };
+            if a[1] == "type-check" {
+                let i: usize = a[2].parse().unwrap();
+                let th = a.get(3).map_or(false, |x| x == "true");
+                let corpus = type_corpus(th);
+                let te = corpus[i].clone();
+                match type_parse_batch(&[te.clone()]) { Err(e) => report(i, th, format!("`{}`: {}", te.src(), e)), Ok(irs) => if let Some(m) = type_case(&te, &irs[0]) { report(i, th, m); } }
+                println!("input passes"); std::process::exit(0);
+            }
+            let corpus = type_corpus(thorough);
+            let mut n = 0;
+            for (b, batch) in corpus.chunks(100).enumerate() {
+                match type_parse_batch(batch) {
+                    Err(_) => { for (j, te) in batch.iter().enumerate() { if let Err(e) = type_parse_batch(&[te.clone()]) { report(b * 100 + j, thorough, format!("`{}`: {}", te.src(), e)); } } }
+                    Ok(irs) => for (j, te) in batch.iter().enumerate() { n += 1; if let Some(m) = type_case(te, &irs[j]) { report(b * 100 + j, thorough, m); } }
+                }
+            }
+            println!("no failing input among {} type expressions (depth <= 3 over 17 leaves and 14 constructors, plus qualified paths and depth 4-5 chains) x 4 positions x 6 languages x plain / prefix / type_mappings", n);
             std::process::exit(0);
         }
         Some("wire-search") | Some("wire-check") => {
